@@ -180,6 +180,10 @@ class C06(Check):
                 args = {"setup": ";".join(setup), "plans": "|".join(plans), "seed": rng.randrange(1, 1 << 30),
                         "stay": rng.choice([0, 20, 50, 80]), "sync": rng.choice([0.02, 0.1, 0.3, 1]), "mode": rng.choice([0, 0, 2]),
                         "pctd": rng.randint(1, 3), "pctlen": rng.choice([50, 200, 1000]), "cap": 3000000}
+                if rng.random() < 0.5:
+                    # targeted preemption: one kind of synchronisation operation (atomic RMW, shared_ptr load/store,
+                    # mesh-ID counter, progress counters, mutex) is always a decision, everything else rarely
+                    args.update({"hot": rng.choice([3, 4, 5, 6, 6, 8, 9]), "hotrate": rng.choice([0.3, 1]), "sync": rng.choice([0, 0.01, 0.05])})
                 if tsan:
                     args.update({"W": 1, "thr": 1, "alone": 0})
                 else:
